@@ -68,7 +68,8 @@ def model(v, tier):
     def run(job):
         kind, name, mut, invs = job
         cfg = refs_cfg(name, mut or "none", invs, live=(kind == "cfg"))
-        to = 240 if kind == "mut" else (280 if tier == "quick" else 1100)
+        # generous: under machine load TLC is 3-10x slower; a timeout here is a Broken check, never a verdict
+        to = 900 if kind == "mut" else (1200 if tier == "quick" else 2400)
         return job, tlc("MCRefs.tla", cfg, workers=wk, timeout=to, heap="3g", metaname="%s_%s_%s" % (PROP, name, mut or "none"))
 
     with cf.ThreadPoolExecutor(max_workers=par) as ex:
@@ -105,6 +106,8 @@ def validate(tr, meta):
                 no = max(no, int(m.group(1)) + 1)
     r = validate_trace("RefsTrace.tla", "RefsTrace.cfg", tr, nthreads=count_threads(tr) + 1, header={"no": max(no, 1)},
                        metaname=meta, timeout=900)
+    if "MO_DRIFT" in r.out:
+        validate.drift = True
     errs = re.findall(r'err = "([^"]*)"', r.out)
     ls = re.findall(r'^/\\ l = (\d+)', r.out, flags=re.M)
     # the state that carries `err` already points past the record that broke the rule
@@ -143,7 +146,7 @@ def drive(v, tier, seed):
         tr = os.path.join(d, "refs_%d.ndjson" % i)
         if os.path.exists(tr):
             os.unlink(tr)
-        rc, out, err = sh([drv, tr, str(s), str(perturb), str(execs), str(ops), hex(mask)], timeout=420)
+        rc, out, err = sh([drv, tr, str(s), str(perturb), str(execs), str(ops), hex(mask), "90"], timeout=1200)
         return dict(i=i, s=s, tr=tr, rc=rc, err=err, desc="seed=%d perturb=%d mask=%s" % (s, perturb, hex(mask)))
 
     with cf.ThreadPoolExecutor(max_workers=4) as ex:
@@ -206,6 +209,8 @@ def drive(v, tier, seed):
             ls = body.splitlines()
             ex = [x for x in ls if '"e":"R"' in x][:3] + [x for x in ls if '"e":"Fin"' in x or '"e":"Dtor"' in x][:2]
             v.samples.append({"trace": os.path.basename(tr), "mode": desc, "records": len(ls), "excerpt": ex})
+    if getattr(validate, "drift", False):
+        v.drift.append("reference-count atomics use a memory order other than relaxed (retain) / release (release): informational under TSO")
     v.notes["dispose_probe_records"] = probes
     v.notes["dispose_observed_by"] = "decrement of os_obj_ref_cnt to -1 (hooked atomics)" + \
         (" + _dispatch_dispose probe" if probes else "; the optional probe patches/C17-hook-dispose-probe.diff is not applied")
@@ -226,7 +231,7 @@ def sanitize(v, tier, seed):
     def one(i):
         s = seed * 1000 + 500 + i
         tr = os.path.join(d, "asan_%d.ndjson" % i)
-        rc, out, err = sh([drv, tr, str(s), str([2, 3, 1][i % 3]), "10", "18", hex(0x1f if i % 2 else 0x01), "90"], timeout=600, env=env)
+        rc, out, err = sh([drv, tr, str(s), str([2, 3, 1][i % 3]), "10", "18", hex(0x1f if i % 2 else 0x01), "150"], timeout=1800, env=env)
         return i, s, tr, rc, err
 
     with cf.ThreadPoolExecutor(max_workers=3) as ex:
